@@ -33,6 +33,7 @@ int cmd_any(string arg) {
   string verb = query_verb();
   string line = arg ? verb + " " + arg : verb;
   if (verb == "name") { uname = arg; "/reg"->put(arg, this_object()); return 1; }
+  if (verb == "zz") { vlog("\"e\":\"FailCmd\",\"u\":" + jq(uname)); return 0; }   // nobody takes this command: the driver prints its fail message
   run_ops(line, "top");
   return 1;
 }
